@@ -75,6 +75,12 @@ func (w Resolver) Resolve(id did.DID, _ *resolver.ResolveMetadata) (*did.Documen
 		baseURL.Path = "/.well-known"
 	}
 	baseURL.Path = baseURL.Path + "/did.json"
+	if baseURL.RawPath != "" {
+		// The path has characters that DIDToURL deliberately left percent-encoded (an encoded slash inside a path segment).
+		// Keep the encoded form in step with Path, otherwise URL.String() falls back to encoding Path, in which %2F has become
+		// a path separator: did:web:example.com:a%2Fb would be fetched from the location of did:web:example.com:a:b.
+		baseURL.RawPath = baseURL.RawPath + "/did.json"
+	}
 	targetURL := baseURL.String()
 
 	// TODO: Support DNS over HTTPS (DOH), https://www.rfc-editor.org/rfc/rfc8484
